@@ -66,6 +66,47 @@ class PanicSites:
         self._sites = out
         return out
 
+    # ---- discharge in the callers' context ---------------------------------
+    def _root_index(self):
+        """(source body, source block) -> copies of that block in the normalised views of the functions that (transitively) inline it"""
+        if getattr(self, "_ridx", None) is None:
+            from . import inline
+            idx = {}
+            for p, b in self.f.bodies.items():
+                if inline.default_policy(self.f, b, b) and self.f.callers_of(p):
+                    continue          # a private helper: read inside its callers
+                v = self.f.view(b)
+                if not getattr(v, "inlined", None):
+                    continue
+                for bi, blk in enumerate(v.blocks):
+                    if blk.get("src") and blk["src"] != p and "src_bb" in blk and not blk["cleanup"]:
+                        idx.setdefault((blk["src"], blk["src_bb"]), []).append((v, bi))
+            self._ridx = idx
+        return self._ridx
+
+    def discharge_in_context(self, s):
+        """A site inside a private helper that neither the helper's own body nor a table row discharges: judged once per place the
+        helper is inlined, with the guards and origins of that caller (dominating tests in the caller, the caller's table rows).
+        Discharged iff it is discharged in every such context."""
+        from . import inline
+        b = s["body"]
+        if hasattr(b, "base") or not (inline.default_policy(self.f, b, b) or b.kind == "Closure"):
+            return None
+        copies = self._root_index().get((b.path, s["bb"]), [])
+        if not copies:
+            return None
+        why = []
+        for v, vb in copies:
+            s2 = dict(s, body=v, bb=vb, term=v.blocks[vb]["term"])
+            r = self.discharge_local(s2)
+            if not r:
+                row = table_row(s2, site_atoms(self.f, s2))
+                r = row[0] if row else None
+            if not r:
+                return None
+            why.append("%s: %s" % (v.path.rsplit("::", 1)[-1], str(r)[:80]))
+        return "in every caller context (%d): %s" % (len(copies), "; ".join(sorted(set(why))[:3]))
+
     def _mk(self, b, bi, t, kind, callee):
         s = {"body": b, "bb": bi, "kind": kind, "callee": callee, "term": t, "discharge": None, "poison": False}
         if kind == "unwrap" and t.get("arg_tys") and "PoisonError<" in t["arg_tys"][0]:
@@ -337,6 +378,8 @@ def panic_under_lock(ctx, f, g, cfg, P, only_manager_modules=True):
         atoms = site_atoms(f, s)
         row = table_row(s, atoms)
         if row and row[1]:
+            continue
+        if not row and ps.discharge_in_context(s):
             continue
         n += 1
         key = "%s.panic-under-lock|%s|%s|%s" % (P, b.path.replace("core::", "", 1), s["kind"], _origin_key(atoms))
